@@ -307,7 +307,10 @@ MANIFEST = {
         "re-checked on the second of two instances that differ only in such an attribute (SymPy caches subs by equality); unfold results modulo SymPy's non-confluent arithmetic canonicalisation: expand, then "
         "numeric evaluation). SymPy's behaviour on built-in nodes, lambdify, numpy and pickle are executed, not modelled. Four classes are defined at run time with every decorator option (implement_doit=False, commutative=False, "
         "defaults, ClassVar, attributes in the middle of the field list, own _numpycode) and go through the table, the correspondence and the "
-        "oracles like the package classes; the generated __new__ is compared with the model on every positional prefix. New classes appear "
+        "oracles like the package classes; the generated __new__ is compared with the model on every positional prefix and through the other CALLING CONVENTIONS of every table class "
+        "(all keywords in declaration / reversed / rotated / random written order, random positional prefix + shuffled keywords, a defaulted field skipped with "
+        "later fields given by keyword): the model's constructor maps declared fields to values, the real class called that way must build that same instance "
+        "(.args in field-declaration order); the oracle repeats this on the real code alone (.args, attributes by name, _hashable_content, ==/hash, doit()). New classes appear "
         "in the table automatically (introspection); new helper classes are listed but only the known ones are instantiated."
     ),
 }
